@@ -5,8 +5,8 @@ package mon
 import (
 	"fmt"
 	"hash/fnv"
-	"os"
 	"math/rand"
+	"os"
 	"runtime"
 	"sync"
 	"sync/atomic"
